@@ -55,7 +55,8 @@ def make_comment(rng, style, mk, text=None, indent=""):
     if style == "dash":
         l = [indent + "-- " + m + " " + t]
     elif style == "hash":
-        l = [indent + "# " + m + " " + t]
+        # text glued to the '#', a doubled '#', or the usual blank after it
+        l = [indent + rng.choice(["# ", "# ", "#", "##", "#!"]) + m + " " + t]
     elif style == "block1":
         l = [indent + "/* " + m + " " + t + " */"]
     elif style in ("blockml", "blockml_close_inline"):
@@ -69,6 +70,9 @@ def make_comment(rng, style, mk, text=None, indent=""):
                 l.append(indent + "   " + mk.next() + " more " + rng.choice(TEXTS))
         if style == "blockml":
             l.append(indent + "*/")
+        elif not indent and rng.random() < 0.4:
+            # the closing line itself starts, at column 0, like a comment / an ignored line
+            l.append(rng.choice(["--", "#", "-- x", "delete", "GO", "INSERT"]) + " " + mk.next() + " last " + t + " */")
         else:
             l.append(indent + "   " + mk.next() + " last " + t + " */")
     else:
